@@ -223,6 +223,10 @@ def _run_dens(case):
         worst_lp = max(worst_lp, abs(lp - ref) / max(1.0, abs(ref)))
         if pr == 0:
             ok_in &= bool(lp <= -744)
+        elif pr < 1e-290:
+            # a density in (or next to) the subnormal range carries only a few significant bits: exp(lnprob) can only be
+            # required to be just as small there
+            ok_in &= bool(lp <= math.log(pr) + 1.0 and lp >= -760)
         else:
             worst_ex = max(worst_ex, abs(math.exp(lp) - pr) / pr / max(1.0, abs(lp)))
     flags["zero_outside_support"] = ok_out
@@ -452,15 +456,35 @@ def _run_expr(case):
     try:
         with np.errstate(all="ignore"):
             gref = _eval(tree, lambda n: objs[id(n)].guess)
+            gref = float(gref) if isinstance(gref, int) else gref
     except ValueError as e:
         # numpy refuses (numpy integer) ** (negative integer); the same operation on the guesses inside HoloPy must then
         # fail the same way -- it is the operation itself that is undefined, not the prior
         if "negative integer powers" not in str(e):
             raise
         return {"resid": {}, "flags": {"undefined_integer_power_raises_too": _raises(ValueError, lambda: derived.guess)}, "skipped": "operation undefined in numpy"}
+    except (TypeError, OverflowError) as e:
+        # the reference itself (plain Python / numpy on the leaf guesses, no HoloPy code involved) cannot be evaluated: integer
+        # leaves raised to integer powers give Python integers beyond the range of a double, which numpy functions refuse
+        return {"resid": {}, "flags": {}, "skipped": "reference not computable: %s" % type(e).__name__}
     if not np.all(np.isfinite(gref)) or abs(gref) > 1e100:
         return {"resid": {}, "flags": {}, "skipped": "reference not finite"}
     g = derived.guess
+    # how far the reference itself moves when every leaf value moves by a few units in the last place: an expression that cancels
+    # (log a - b/c with nearly equal terms) or amplifies (sin of 1e7) cannot be reproduced more closely than that by any evaluation order
+    def _moved(vals):
+        worst = 0.0
+        for sgn in (1.0, -1.0):
+            try:
+                with np.errstate(all="ignore"):
+                    alt = np.asarray(_eval(tree, lambda n: vals(n) * (1 + sgn * 4e-16) if not isinstance(vals(n), (int, np.integer)) else vals(n)), dtype=float)
+            except Exception:
+                return float("inf")
+            ref = np.asarray(_eval(tree, vals), dtype=float)
+            with np.errstate(all="ignore"):
+                worst = max(worst, float(np.nanmax(np.abs(alt - ref) / np.maximum(np.abs(ref), 1e-300))))
+        return worst
+    cond_g = _moved(lambda n: objs[id(n)].guess)
     resid["guess"] = fnum(abs(g - gref) / max(abs(gref), 1e-300)) if gref != 0 else fnum(abs(g))
     size = case["size"]
     np.random.seed(case["npseed"])
@@ -478,6 +502,7 @@ def _run_expr(case):
         if sa.shape == sref.shape:
             den = np.maximum(np.abs(sref), 1e-300)
             resid["sample"] = fnum(np.max(np.abs(sa - sref) / den))
+            cond_s = _moved(lambda n: drawn[id(n)])
         else:
             flags["sample_shape_vs_ref"] = False
     else:
@@ -489,7 +514,7 @@ def _run_expr(case):
             flags["derived_lnprob_raises"] = False
         except NotImplementedError:
             flags["derived_lnprob_raises"] = True
-    return {"resid": resid, "flags": flags}
+    return {"resid": resid, "flags": flags, "cond": {"guess": fnum(cond_g), "sample": fnum(locals().get("cond_s", 0.0))}}
 
 
 def _raises(exc, f):
@@ -604,7 +629,11 @@ def judge(case, obs):
     out = []
     for k, v in obs.get("resid", {}).items():
         base = k.split("@")[0]
-        if not v <= TOL[base]:
+        tol = TOL[base]
+        if case["kind"] == "expr" and base in ("guess", "sample"):
+            # an ill-conditioned expression bounds what any evaluation order can reproduce (measured on the reference itself in the child)
+            tol = max(tol, 8 * (obs.get("cond") or {}).get(base, 0.0))
+        if not v <= tol:
             out.append({"mech": "%s.%s" % (case["kind"], base), "detail": "%s=%.4g > %.3g ; case=%s" % (k, v, TOL[base], {x: case[x] for x in case if x != "seed"})})
     for k, v in obs.get("flags", {}).items():
         if not v:
